@@ -241,9 +241,22 @@ def marshall_twice(kind, value):
     else:
         spc5 = kind == "xcopy5"
         cmd = cmds.BY_NAME["extendedcopy5" if spc5 else "extendedcopy4"]
-        arg = paramgen.strip_notes(draw(None))
+        raw = draw(None)
+        arg = paramgen.strip_notes(raw)
         fresh = copy.deepcopy(arg)
         op = cmd.opcode("spc")
+        # a command built right after one that differs from it in a single descriptor field: its parameter
+        # list is its own (judged against the independent builder of C05)
+        from pbt.props import c05_paramlists as c05
+        from pbt.stdspec import paramlists as P_
+
+        with lib("ExtendedCopy"):
+            cmd.cls(op, **copy.deepcopy(arg))
+        for site, b in c05.twins(raw, limit=2):
+            with lib("ExtendedCopy (near twin)"):
+                got = bytes(cmd.cls(op, **paramgen.strip_notes(b)).dataout)
+            expect(got == bytes(P_.xcopy(b, spc5)), "mismatch:command_built_after_a_near_twin_carries_foreign_bytes",
+                   changed=str(site[-1]))
         with lib("ExtendedCopy"):
             a = bytes(cmd.cls(op, **arg).dataout)
             b = bytes(cmd.cls(op, **arg).dataout)  # same list/dict objects again
